@@ -387,6 +387,9 @@ def build_cases(tier):
     add(MetamorphicCase, N=2, R=3, P=3, failed=(False, False, False), failed_by_count=(1,), pmin=2, seed=seed)
     add(MetamorphicCase, N=2, R=3, P=4, failed=(False, False, False), failed_by_count=(0,), pmin=3, merge=True, seed=seed)
     add(MetamorphicCase, N=2, R=3, P=3, failed=(True, False, False), failed_by_count=(2,), pmin=3, merge=True, seed=seed)
+    # the same with the standard-deviation estimator: its statistics must be those of the gradient's survivors
+    add(MetamorphicCase, N=1, R=3, P=2, failed=(False, False, False), failed_by_count=(1,), pmin=2, estimators=("stddev",), seed=seed,
+        weights=(Fraction(1, 2), Fraction(1, 4), Fraction(1, 4)))
     # functions first, then a gradient-only request at the same point, with a filter that zeroes realizations
     add(ThresholdCase, N=1, R=3, P=1, K=1, nan_cols=(0,), seed=seed, split=True, filters=(sort_filter(0, 1),), obj_filt=(0,))
     if tier == "thorough":
